@@ -2,7 +2,7 @@
    it observed.  [agrees] compares with the model; [C09_ok] evaluates the property on the
    observation alone, by replaying sent and received events on two folded views -- it never calls
    merge_changes or the state machines. *)
-From SC Require Import Base.Prelude Excess.Change Excess.MergeExcess Excess.DropExcess.
+From SC Require Import Base.Prelude Excess.Change Excess.MergeExcess Excess.DropExcess Excess.ChangesAfter Excess.Pipeline.
 
 Inductive c09case :=
 (* mergeCollectionExcess driven one action at a time; obs has one entry per action *)
@@ -24,7 +24,19 @@ Inductive c09case :=
    did #2 return once the subscriber received *)
 | KApiWaits (first_returned second_returned_early second_returned_after_recv : bool)
 (* Value.Set with a stuck backpressured subscriber: returned an error? elapsed milliseconds *)
-| KApiTimeout (errored : bool) (elapsed_ms : Z).
+| KApiTimeout (errored : bool) (elapsed_ms : Z)
+(* the lossy front mergeCollectionExcess(changesAfter(in, seeded)) as Collection.onUpdate assembles
+   it, driven one action at a time (each action followed by quiescence).  hist = every publication
+   of the store in commit order (those numbered up to seeded are what the seed shows); acts = the
+   arrival order at this listener interleaved with the consumer's receives *)
+| KLossy (seeded : Z) (hist : list published) (acts : list laction) (os : list obs)
+(* the assembled pipeline behind Collection.Pull (default ReadRequest + backpressure flag), driven
+   through the public API with parked writers and a controllable consumer: the external trace.
+   blocked = some write did not return within the guard although the model has Publish enabled *)
+| KPipe (bp : bool) (seeded : Z) (nseed : nat) (fuel : nat) (hist : list published) (es : list ext) (blocked : bool)
+(* the assembled pipeline behind Value.Pull (no equivalence configured), external trace; the seed
+   value, when there is one, is the first delivery *)
+| KVPipe (bp : bool) (seed : option Z) (es : list vext) (blocked : bool).
 
 (* ---- equality of observations ---- *)
 Definition obs_eqb (a b : obs) : bool :=
@@ -96,6 +108,55 @@ Definition row_law (a b out : change) (send : bool) : bool :=
        else oz_eqb (result b (result a x)) x
      else true) [None; cold a; Some 1; Some 2].
 
+(* ---- the oracle for KLossy: the two-view walk again, started from the seed view, over the
+   publications the seed does not show; a publication the seed shows must be taken and change nothing ---- *)
+Definition seed_view (seeded : Z) (hist : list published) : view :=
+  fold_view (map pchange (filter (fun p => negb (ca_pass seeded p)) hist)) empty_view.
+
+Fixpoint l_strip (thr : Z) (acts : list laction) (os : list obs) : option (list obs) :=
+  match acts, os with
+  | [], [] => Some []
+  | LPub p :: a', o :: o' =>
+      if ca_pass thr p then option_map (cons o) (l_strip thr a' o')
+      else match o with OSent => l_strip thr a' o' | _ => None end
+  | LRecv :: a', o :: o' => option_map (cons o) (l_strip thr a' o')
+  | _, _ => None
+  end.
+
+Definition lossy_ok (seeded : Z) (hist : list published) (acts : list laction) (os : list obs) : bool :=
+  match l_strip seeded acts os with
+  | Some os' => let v0 := seed_view seeded hist in
+                walk (ids_of (map pchange hist)) (l_proj seeded acts) os' v0 v0 O None
+  | None => false
+  end.
+
+(* guard: the committed script above the threshold is a valid edit script on the seed view and the
+   arrival order keeps the order of the publications of each id *)
+Definition lossy_guard (seeded : Z) (hist arrived : list published) : bool :=
+  per_id_sameb (changes_after seeded hist) (changes_after seeded arrived)
+  && valid_script (changes_after seeded hist) (seed_view seeded hist).
+
+(* ---- the oracle for KPipe: what was received is a valid script on the seed view; once the trace
+   ends (the harness drains until every goroutine is parked with nothing in flight) its fold is
+   the committed view; with backpressure it is the committed script itself ---- *)
+Definition recvd_of (es : list ext) : list change :=
+  flat_map (fun e => match e with ERecv c => [c] | _ => [] end) es.
+Definition epubs_of (es : list ext) : list published :=
+  flat_map (fun e => match e with EPub p => [p] | _ => [] end) es.
+Definition nseeds_of (es : list ext) : nat :=
+  List.length (filter (fun e => match e with ESeed => true | _ => false end) es).
+
+Definition pipe_ok (bp : bool) (seeded : Z) (nseed : nat) (hist : list published) (es : list ext) (blocked : bool) : bool :=
+  let v0 := seed_view seeded hist in
+  let want := changes_after seeded hist in
+  negb blocked && Nat.eqb (nseeds_of es) nseed
+  && valid_script (recvd_of es) v0
+  && views_eqb (ids_of (map pchange hist)) (fold_view (recvd_of es) v0) (fold_view want v0)
+  && (if bp then per_id_sameb (recvd_of es) want && Nat.eqb (List.length (recvd_of es)) (List.length want) else true).
+
+Definition vrecvd_of (es : list vext) : list Z := flat_map (fun e => match e with VERecv m => [m] | _ => [] end) es.
+Definition vepubs_of (es : list vext) : list Z := flat_map (fun e => match e with VEPub m => [m] | _ => [] end) es.
+
 (* ---- public API oracles ---- *)
 Fixpoint subseq (a b : list Z) : bool :=   (* a is a subsequence of b *)
   match a, b with
@@ -124,6 +185,14 @@ Definition C09_ok (c : c09case) : bool :=
       converged && list_eqb Z.eqb got sent
   | KApiWaits first early after => first && negb early && after
   | KApiTimeout errored ms => errored && (4000 <=? ms) && (ms <=? 9000)
+  | KLossy seeded hist acts os => lossy_ok seeded hist acts os
+  | KPipe bp seeded nseed _ hist es blocked => pipe_ok bp seeded nseed hist es blocked
+  | KVPipe bp seed es blocked =>
+      let all := match seed with Some x => [x] | None => [] end ++ vepubs_of es in
+      negb blocked
+      && (if bp then list_eqb Z.eqb (vrecvd_of es) all
+          else subseq (vrecvd_of es) all
+               && option_eqb Z.eqb (last (map Some (vrecvd_of es)) None) (last (map Some all) None))
   end.
 
 Definition C09_guard (c : c09case) : bool :=
@@ -132,6 +201,11 @@ Definition C09_guard (c : c09case) : bool :=
   | KDrop acts _ => d_no_close acts
   | KRow _ _ _ _ => true
   | KApiColl _ sent _ _ _ => valid_script sent empty_view
+  | KLossy seeded hist acts _ => lossy_guard seeded hist (pubs_of acts)
+  | KPipe _ seeded _ _ hist es blocked =>
+      (* a blocked write is judged whatever had been published before it *)
+      if blocked then valid_script (changes_after seeded hist) (seed_view seeded hist)
+      else lossy_guard seeded hist (epubs_of es)
   | _ => true
   end.
 
@@ -140,7 +214,16 @@ Definition agrees (c : c09case) : bool :=
   | KMerge acts os => list_eqb obs_eqb os (snd (m_run m_init acts))
   | KDrop acts os => list_eqb dobs_eqb os (snd (d_run d_init acts))
   | KRow a b out send =>
-      let '(m, s) := merge_changes a b in change_eqb m out && Bool.eqb s send
+ let '(m, s) := merge_changes a b in change_eqb m out && Bool.eqb s send
+  | KLossy seeded _ acts os =>
+      match l_strip seeded acts os with
+      | Some os' => list_eqb obs_eqb os' (snd (m_run m_init (l_proj seeded acts)))
+      | None => false
+      end
+  | KPipe false seeded nseed fuel _ es blocked => negb blocked && pipe_agrees_drained Some fuel seeded nseed es
+  | KPipe true seeded nseed _ _ es blocked => negb blocked && b_explore Some (b_init seeded nseed) es
+  | KVPipe false seed es blocked => negb blocked && value_agrees_drained (fun _ _ => false) seed es
+  | KVPipe true seed es blocked => negb blocked && w_explore (fun _ _ => false) (w_init seed) es
   | _ => true    (* the public-API runs are judged by the oracle only: their receive pattern is
                     decided by the scheduler (the Pull goroutine holds one event), not recorded *)
   end.
@@ -150,6 +233,14 @@ Definition judge (c : c09case) : Z :=
 
 (* short names for the generated case files *)
 Module Short.
+  Definition P (c : change) (n : Z) := LPub (mkPub c n).
+  Definition LR := LRecv.
+  Definition pb := mkPub.
+  Definition EP (c : change) (n : Z) := EPub (mkPub c n).
+  Definition ER := ERecv.
+  Definition ES := ESeed.
+  Definition VP := VEPub.
+  Definition VR := VERecv.
   Definition A (i n t : Z) := Send (mkChange i 1 None (Some n) t false false).
   Definition U (i o n t : Z) := Send (mkChange i 2 (Some o) (Some n) t false false).
   Definition D (i o t : Z) := Send (mkChange i 3 (Some o) None t false false).
